@@ -238,7 +238,22 @@ def run_case(res: Result, spec, idx):
                         bad("C03:entry-exit-accounting-mismatch",
                             "configuration reported by on_transition differs from the replay of "
                             "entry/exit markers on %s" % diff[:4])
+                    S["touched"] = {_mstate(m[1])[1] for m in markers if m[1][:3] in ("ex.", "en.")}
                     markers, tasks = [], []
+                elif k == "timers":
+                    # effect law: a state with no entry/exit in the bracket keeps its live timers
+                    prev, cur = S.get("timers"), r[1]
+                    if prev is not None and S.get("touched") is not None:
+                        res.count("timer-census.compared")
+                        for owner in set(prev) | set(cur):
+                            if owner in S["touched"]:
+                                continue
+                            if prev.get(owner, 0) != cur.get(owner, 0):
+                                bad("C03:untouched-state-timer-count-changed",
+                                    "state %s was neither entered nor exited but its live timers "
+                                    "went from %d to %d" % (owner, prev.get(owner, 0), cur.get(owner, 0)))
+                    S["timers"] = cur
+                    S["touched"] = None
             if initial:
                 replay(markers)
                 _check_initial(markers)
@@ -259,6 +274,11 @@ def run_case(res: Result, spec, idx):
 
         def setup(run):
             observe.SINK["log"] = run["rec"].log
+            S["timers"] = None
+
+            def on_tx(interp, rec_):
+                run["rec"].log.append(("timers", observe.live_timers(interp)))
+            run["rec"].on_tx = on_tx
 
         f = drive.run_sync if engine == "sync" else drive.run_async
         run = f(case, nev, erng, on_step, setup=setup)
@@ -296,7 +316,7 @@ def quota(counters, tier):
     out = []
     for k in ("brackets.sync", "brackets.async", "event-identity.checked", "activity.entries",
               "activity.exits", "frame.task-records", "wrapper.after_timer",
-              "wrapper.cancel_state_tasks", "initial-entries"):
+              "wrapper.cancel_state_tasks", "initial-entries", "timer-census.compared"):
         if counters.get(k, 0) == 0:
             out.append("monitor-never-reached:" + k)
     return out
